@@ -112,41 +112,10 @@ def run(ctx):
     if not ok:
         ctx.violation("halt-check-arg", sp_file_line(tcall.get("sp")), "the interrupt check is not given the instruction at the current PC: %s" % e)
     # (c) the run loop's side: after a Proceed, the only conditions that skip execution are those two, tested the same way
-    act = list(kit.discr_switches(rl, "lace::debugger::Action"))
-    ctx.need(act, "match on Action in the run loop")
-    ab, aplace, atargets, aoth = act[0]
-    avidx = {v["name"]: v["idx"] for v in prog.adt("lace::debugger::Action")["variants"]}
-    ctx.need(avidx.get("Proceed") in atargets, "Proceed arm in the run loop")
-    pt = atargets[avidx["Proceed"]]
-    exs = [b for b, t, c in rl.calls() if c == EXEC]
-    ctx.need(len(exs) == 1, "one execute site in the run loop")
-    heads = {h for h, (body, latches) in kit.loops(rl).items() if exs[0] in body}
-    def promoted_variants(e):
-        out = []
-        for x in expr_walk(e):
-            if x[0] == "uneval" and len(x) > 2:
-                pf = prog.fns.get("%s::promoted[%s]" % (x[1], x[2]))
-                if pf is not None:
-                    out += [s_["r"].get("variant") for b_, i_, s_ in pf.assigns() if s_["r"]["k"] == "agg" and s_["r"].get("variant")]
-            if x[0] == "agg" and x[1][0] == "adt":
-                out.append(x[1][2])
-        return out
+    pt, exb, skips = dbg.run_loop_skips(ctx, rl)
     kinds = []
-    for bb in sorted(kit.dominated_region(rl, pt)):
+    for bb, kind, e, skip_s, go_s in skips:
         t = rl.term(bb)
-        if t["k"] != "switch":
-            continue
-        reach = [exs[0] in rl.reachable(x, avoid=heads) for x in rl.succ_map()[bb]]
-        if all(reach) or not any(reach):
-            continue
-        e = rl.expr(t["a"], 8)
-        calls_ = [str(x[1]) for x in expr_walk(e) if x[0] == "call"]
-        pv = promoted_variants(e)
-        kind = None
-        if any(c == "lace::runtime::RunState::check_pc_bounds" for c in calls_) and "Equal" in pv and len(calls_) == 2:
-            kind = "bounds"
-        elif any("SignificantInstr" in c and c.endswith("try_from") for c in calls_) and "Halt" in pv and "pc" in expr_str(e, 2000) and "mem" in expr_str(e, 2000):
-            kind = "halt"
         ctx.instance(1)
         ctx.oblig(kind is not None, {"run loop skips execution when": kind or expr_str(e, 120)}, "one of the two conditions the pausing code answers with WaitForAction")
         if kind is None:
